@@ -166,6 +166,8 @@ def encode(op):
 
 def dump_obj(o):
     p0r = o._pipe0_read_addr
+    if not hasattr(o, "_pl_len"):      # rf24_lite.RF24: two pieces of state
+        return [o._status] + ([0] if p0r is None else [1] + bts(bytes(p0r)))
     return ([o._in[0], o._config, o._rf_setup, o._open_pipes, o._dyn_pl, o._aa, o._features, o._retry_setup,
              o._channel, o._addr_len] + list(o._pl_len) + bts(bytes(o._pipes[0])) + bts(bytes(o._pipes[1]))
             + [int(x) for x in o._pipes[2:6]] + bts(bytes(o._tx_address))
